@@ -102,6 +102,9 @@ func RunReal(F *RFuncs, c Config, r *rand.Rand) (*Outcome, []string) {
 		consume(0, F.JoinCC[c.Variant](outer))
 	case "joinsc":
 		ins := mkIns()
+		if c.NilSlice && len(ins) == 0 {
+			ins = nil
+		}
 		consume(0, F.JoinSC[c.Variant](ins))
 	case "joinsel":
 		ins := mkIns()
@@ -291,6 +294,11 @@ func MainR(F *RFuncs) {
 					for _, c := range DoConfigs(n) {
 						runCfg(c, reps)
 					}
+				}
+			}
+			if sys != "do" {
+				for _, c := range ZeroConfigs(sys) {
+					runCfg(c, reps)
 				}
 			}
 			for i := 0; i < nc; i++ {
